@@ -684,6 +684,45 @@ def txn_rule(ctx, prefix):
     return obs
 
 
+def separator_condition_rule(ctx, prefix):
+    """the blank between two tokens is written exactly when cssparser's separator rule asks for it"""
+    import guards as gdm
+    ob = ctx.ob
+    fs = [f for f in ctx.sc.fns if f.name == "append_token" and f.base == "StyleSheetOutput" and f.body]
+    if not fs:
+        return []
+    f = fs[0]
+    G = gdm.guards_of(f.body)
+    seps = []
+    for n in sir.walk(f.body):
+        w = sir.write_fmt_call(n)
+        if w and w[1] == [("lit", " ")]:
+            seps.append(n)
+        elif n.get("k") == "mcall" and n["m"] in ("push", "push_str") and n["args"] and sir.strip_ref(n["args"][0]).get("v") == " ":
+            if n not in seps:
+                seps.append(n)
+    if not seps:
+        return [ob("%s.sep/condition" % prefix, None, ctx.where(f), "the separator write is not in a form this rule reads")]
+    extra, asked = [], False
+    for n in seps:
+        for kind, subj, pol in G.get(id(n), []):
+            t = sir.expr_str(subj) if kind == "cond" else subj[1]
+            if kind == "cond" and pol and any(y.get("k") == "mcall" and y["m"] == "needs_separator_when_before" for y in sir.walk(subj)) and subj.get("k") == "mcall":
+                asked = True
+            elif kind == "cond" and subj.get("k") == "path":
+                # a local holding the answer
+                inits = [l_["init"] for l_ in sir.walk(f.body) if l_.get("k") == "local" and l_["pat"].get("name") == subj["segs"][0] and l_.get("init") is not None]
+                if inits and inits[0].get("k") == "mcall" and inits[0]["m"] == "needs_separator_when_before" and pol:
+                    asked = True
+                else:
+                    extra.append(t[:50])
+            else:
+                extra.append(t[:50])
+    ok = asked and not extra
+    return [ob("%s.sep/condition" % prefix, ok, ctx.where(f), "the separating blank is written exactly when needs_separator_when_before says so" if ok else "the separating blank also depends on %s" % extra[:2] if extra else "the separator rule of cssparser is not consulted",
+               witness=None if ok else "counter-increment: item -1 is emitted as `item-1`")]
+
+
 def sep_rule(ctx, prefix):
     """all output goes through the serialising appenders"""
     ob = ctx.ob
@@ -1168,6 +1207,12 @@ def int_rule(ctx, prefix, writer_only=False):
                 uses_to_css = any(x.get("k") == "mcall" and x["m"] == "to_css" for x in sir.walk(a["body"]))
                 for kd in kinds:
                     if kd in ("Number", "Dimension", "Percentage"):
+                        # numbers may be written by hand only from their integer value: the arm binds `int_value: Some(..)`
+                        if not uses_to_css:
+                            from_int = any(sub.get("k") == "p_struct" and any(fl["name"] == "int_value" and "Some" in sir.pat_str(fl["pat"]) for fl in sub["fields"]) for sub in sir.walk(a["pat"]))
+                            if not from_int:
+                                obs.append(ob("%s.ser/%s/non-integer" % (prefix, kd), False, ctx.where(f), "%s tokens without an integer value are written by hand (arm `%s`) instead of by cssparser" % (kd, sir.pat_str(a["pat"])[:60]),
+                                              witness="line-height:1e10 is emitted as 2147483647"))
                         continue
                     obs.append(ob("%s.ser/%s" % (prefix, kd), uses_to_css, ctx.where(f), "%s tokens are %s" % (kd, "serialised by cssparser (to_css)" if uses_to_css else "serialised by hand instead of by cssparser's to_css: escaping of quotes, backslashes, newlines and non-printables is no longer the tokenizer's inverse"),
                               witness=None if uses_to_css else "a string or identifier containing `\\` changes its value"))
